@@ -462,6 +462,32 @@ func (m c14) Run(c *fw.Ctx) {
 				x.history(p.name, "a',a,a',a", n.aspect, n.what, []inv{n.v, a, n.v, a}, differ())
 			}
 		}
+		// seeded histories of length 2..4 over this command's variants (and a
+		// variant with -o), repeats included.
+		nrand := c.Pick(2, 40)
+		for k := 0; k < nrand; k++ {
+			if !c.NextShared() {
+				continue
+			}
+			hr := c.SubRng(fmt.Sprintf("hist|%s|%d|%v", p.name, k, p.base.args))
+			pool := []inv{a}
+			for _, n := range p.neigh {
+				pool = append(pool, n.v)
+			}
+			ln := 2 + hr.Intn(3)
+			var hs []inv
+			for i := 0; i < ln; i++ {
+				v := pool[hr.Intn(len(pool))]
+				if hr.Intn(6) == 0 {
+					v = v.withOut("o.out")
+				}
+				if hr.Intn(8) == 0 {
+					v.stdin = []string{"bad-trunc.gb", "bad-field.gb", "empty"}[hr.Intn(3)]
+				}
+				hs = append(hs, v)
+			}
+			x.history(p.name, "seeded", "", "random history", hs, false)
+		}
 		// failing inputs.
 		for _, bad := range []string{"bad-trunc.gb", "bad-field.gb", "bad-second.gb", "empty"} {
 			if !c.Thorough() && bad == "bad-second.gb" && p.name != "clear" && p.name != "extract" {
